@@ -288,6 +288,11 @@ def run(ck):
     rule_law(ck, rid="C03.R9")
     from .c13 import rule_validate_before_mutate
     rule_validate_before_mutate(ck, rid="C03.R6")
+    # "0 <= recorded rate <= recorded pilot": the rate an EV reports (and the simulator records) is the value its battery returned for
+    # this very pilot, and every battery entry point goes through a bounded routine (shared with C02)
+    from .c02 import rule_same_value, rule_call_chain
+    rule_same_value(ck, rid="C03.R10")
+    rule_call_chain(ck, rid="C03.R11")
     # the clamps only bound the rate if the conversions between A, kW, kWh and SoC-per-period are exact (units + truncation)
     from ..units import check_units
     from ..tables import UNITS
